@@ -632,3 +632,329 @@ pub fn protoedge(groups: &mut Vec<Group>) {
     m.push_def(def("Pe9", Type::Sequence(Comps { root: vec![man("big", Type::int(i64::MIN as i128 + 1, i64::MAX as i128)), man("s32", Type::int(-2147483648, 2147483647)), man("after", Type::int(0, 255))], ext: None })));
     groups.push(Group::new("protoedge", vec![m]));
 }
+
+// =================================================================================================
+// C09: compile families. Every group is one module (set) that is only compiled, never run.
+
+fn note_group(family: &str, m: Module, what: &str, ident: &str) -> Group {
+    let mut g = Group::new(family, vec![m]);
+    g.notes.insert("c09".into(), json!({"construct": what, "identifier": ident}));
+    g
+}
+
+/// every Rust keyword at every position an ASN.1 identifier can take - one group per (keyword, position)
+pub fn c09_keywords(groups: &mut Vec<Group>) {
+    let man = |name: &str, ty: Type| Comp { name: name.into(), tag: None, ty, presence: Presence::Mandatory };
+    for kw in vgen::gen::RUST_KEYWORDS {
+        let lower = kw.to_lowercase();
+        // ASN.1 identifiers start lower case, type references upper case
+        let ident = if *kw == "Self" { "self".to_string() } else { kw.to_string() };
+        let upper = {
+            let mut c = lower.chars();
+            let f = c.next().unwrap().to_uppercase().collect::<String>();
+            format!("{}{}", f, c.as_str())
+        };
+        let positions: Vec<(&str, Box<dyn Fn(&mut Module)>)> = vec![
+            ("component", Box::new({
+                let ident = ident.clone();
+                move |m: &mut Module| m.push_def(def("Holder", Type::Sequence(Comps { root: vec![man(&ident, Type::int(0, 255)), man("other", Type::Boolean)], ext: None })))
+            })),
+            ("optional-component", Box::new({
+                let ident = ident.clone();
+                move |m: &mut Module| {
+                    m.push_def(def(
+                        "Holder",
+                        Type::Sequence(Comps {
+                            root: vec![
+                                Comp { name: ident.clone(), tag: None, ty: Type::int(0, 255), presence: Presence::Optional },
+                                Comp { name: "other".into(), tag: None, ty: Type::int(0, 255), presence: Presence::Default(DefaultVal::Lit(Lit::Int(3))) },
+                            ],
+                            ext: None,
+                        }),
+                    ))
+                }
+            })),
+            ("alternative", Box::new({
+                let ident = ident.clone();
+                move |m: &mut Module| m.push_def(def("Pick", Type::Choice { root: vec![Alt { name: ident.clone(), tag: None, ty: Type::int(0, 255) }, Alt { name: "other".into(), tag: None, ty: Type::Boolean }], ext: None }))
+            })),
+            ("enumeration-item", Box::new({
+                let ident = ident.clone();
+                move |m: &mut Module| m.push_def(def("Kind", Type::Enumerated { root: vec![EnumItem { name: ident.clone(), num: None }, EnumItem { name: "other".into(), num: None }], ext: None }))
+            })),
+            ("named-number", Box::new({
+                let ident = ident.clone();
+                move |m: &mut Module| {
+                    m.push_def(def("Nums", Type::Integer { c: Some(IntC { lo: Bound::Lit(0), hi: Bound::Lit(255), ext: false }), named: vec![(ident.clone(), 1), ("other".into(), 2)] }));
+                    m.push_def(def("Holder", Type::Sequence(Comps { root: vec![man("inner", Type::Integer { c: Some(IntC { lo: Bound::Lit(0), hi: Bound::Lit(255), ext: false }), named: vec![(ident.clone(), 1)] })], ext: None })));
+                }
+            })),
+            ("inline-component-type", Box::new({
+                let ident = ident.clone();
+                move |m: &mut Module| {
+                    m.push_def(def(
+                        "Outer",
+                        Type::Sequence(Comps {
+                            root: vec![
+                                man(&ident, Type::Sequence(Comps { root: vec![man(&ident, Type::Boolean)], ext: None })),
+                                man("second", Type::Enumerated { root: vec![EnumItem { name: ident.clone(), num: None }], ext: None }),
+                                man("third", Type::Choice { root: vec![Alt { name: ident.clone(), tag: None, ty: Type::Null }], ext: None }),
+                            ],
+                            ext: None,
+                        }),
+                    ))
+                }
+            })),
+            ("value-reference", Box::new({
+                let ident = ident.clone();
+                move |m: &mut Module| {
+                    m.push_value(ValueDef { name: ident.clone(), ty: Type::int_unconstrained(), lit: Lit::Int(5) });
+                    m.push_def(def("Ranged", Type::Integer { c: Some(IntC { lo: Bound::Lit(0), hi: Bound::Ref(ident.clone()), ext: false }), named: vec![] }));
+                }
+            })),
+            ("type-reference", Box::new({
+                let upper = upper.clone();
+                move |m: &mut Module| {
+                    m.push_def(def(&upper, Type::Sequence(Comps { root: vec![man("a", Type::Boolean)], ext: None })));
+                    m.push_def(def("User", Type::Sequence(Comps { root: vec![man("inner", Type::Ref(upper.clone())), man("more", Type::SequenceOf { elem: Box::new(Type::Ref(upper.clone())), size: Size::None })], ext: None })));
+                }
+            })),
+        ];
+        for (what, build) in positions {
+            let gi = groups.len();
+            let mut m = Module::new(&module_name(gi, 0));
+            build(&mut m);
+            groups.push(note_group("c09kw", m, what, kw));
+        }
+    }
+}
+
+/// identifiers that are distinct in ASN.1 but meet after name mangling, names of the Rust prelude, of the generated
+/// helper items and of the primitive types
+pub fn c09_collisions(groups: &mut Vec<Group>) {
+    let man = |name: &str, ty: Type| Comp { name: name.into(), tag: None, ty, presence: Presence::Mandatory };
+    let pairs: &[(&str, &str)] = &[("my-field", "myField"), ("ab-cd", "abCd"), ("a-b", "aB"), ("x1", "x-1"), ("value", "value-"), ("red-one", "redOne"), ("ab-c-d", "abC-d"), ("http-url", "httpUrl")];
+    for (a, b) in pairs {
+        if a.ends_with('-') || b.ends_with('-') {
+            continue;
+        }
+        for (what, ty) in [
+            ("colliding-components", Type::Sequence(Comps { root: vec![man(a, Type::Boolean), man(b, Type::int(0, 255))], ext: None })),
+            ("colliding-alternatives", Type::Choice { root: vec![Alt { name: a.to_string(), tag: None, ty: Type::Boolean }, Alt { name: b.to_string(), tag: None, ty: Type::int(0, 255) }], ext: None }),
+            ("colliding-enumeration-items", Type::Enumerated { root: vec![EnumItem { name: a.to_string(), num: None }, EnumItem { name: b.to_string(), num: None }], ext: None }),
+            ("colliding-named-numbers", Type::Integer { c: Some(IntC { lo: Bound::Lit(0), hi: Bound::Lit(255), ext: false }), named: vec![(a.to_string(), 1), (b.to_string(), 2)] }),
+        ] {
+            let gi = groups.len();
+            let mut m = Module::new(&module_name(gi, 0));
+            m.push_def(def("Subject", ty));
+            groups.push(note_group("c09col", m, what, &format!("{} / {}", a, b)));
+        }
+        // value references
+        let gi = groups.len();
+        let mut m = Module::new(&module_name(gi, 0));
+        m.push_value(ValueDef { name: a.to_string(), ty: Type::int_unconstrained(), lit: Lit::Int(1) });
+        m.push_value(ValueDef { name: b.to_string(), ty: Type::int_unconstrained(), lit: Lit::Int(2) });
+        m.push_def(def("Subject", Type::Integer { c: Some(IntC { lo: Bound::Ref(a.to_string()), hi: Bound::Ref(b.to_string()), ext: false }), named: vec![] }));
+        groups.push(note_group("c09col", m, "colliding-value-references", &format!("{} / {}", a, b)));
+    }
+    // type references that meet after mangling, and an inline type meeting a top-level one
+    for (a, b) in [("My-Type", "MyType"), ("Ab-Cd", "AbCd"), ("Http-URL", "HttpURL")] {
+        let gi = groups.len();
+        let mut m = Module::new(&module_name(gi, 0));
+        m.push_def(def(a, Type::Sequence(Comps { root: vec![man("x", Type::Boolean)], ext: None })));
+        m.push_def(def(b, Type::Sequence(Comps { root: vec![man("y", Type::int(0, 255))], ext: None })));
+        groups.push(note_group("c09col", m, "colliding-type-references", &format!("{} / {}", a, b)));
+    }
+    {
+        let gi = groups.len();
+        let mut m = Module::new(&module_name(gi, 0));
+        m.push_def(def("Parent", Type::Sequence(Comps { root: vec![man("field", Type::Sequence(Comps { root: vec![man("x", Type::Boolean)], ext: None }))], ext: None })));
+        m.push_def(def("ParentField", Type::Sequence(Comps { root: vec![man("y", Type::int(0, 255))], ext: None })));
+        groups.push(note_group("c09col", m, "inline-type-meets-top-level-type", "Parent.field / ParentField"));
+    }
+    {
+        let gi = groups.len();
+        let mut m = Module::new(&module_name(gi, 0));
+        m.push_def(def(
+            "Parent",
+            Type::Sequence(Comps {
+                root: vec![
+                    man("some-field", Type::Sequence(Comps { root: vec![man("x", Type::Boolean)], ext: None })),
+                    man("someField", Type::Choice { root: vec![Alt { name: "y".into(), tag: None, ty: Type::Null }], ext: None }),
+                ],
+                ext: None,
+            }),
+        ));
+        groups.push(note_group("c09col", m, "two-inline-types-meet", "Parent.some-field / Parent.someField"));
+    }
+    // names of the prelude, of primitive types and of items the generated code itself uses
+    for name in ["Option", "Vec", "String", "Result", "Box", "Some", "None", "Ok", "Err", "Default", "Clone", "Debug", "PartialEq", "Copy", "Sized", "Iterator", "Into", "From", "Null", "BitVec", "Reader", "Writer", "Readable", "Writable", "Error", "Self-", "U8", "Bool", "Str", "Constraint", "Sequence", "Choice", "Enumerated", "Integer", "Utf8String", "OctetString", "Tag", "Value", "Type", "Crate", "Asn1rs", "Core", "Std"] {
+        if name.ends_with('-') {
+            continue;
+        }
+        for (what, ty) in [
+            ("prelude-like-name:SEQUENCE", Type::Sequence(Comps { root: vec![man("a", Type::Boolean), Comp { name: "b".into(), tag: None, ty: Type::int(0, 255), presence: Presence::Optional }, man("c", Type::SequenceOf { elem: Box::new(Type::CharString { cs: Charset::Utf8, size: Size::None }), size: Size::None })], ext: None })),
+            ("prelude-like-name:ENUMERATED", Type::Enumerated { root: vec![EnumItem { name: "a".into(), num: None }, EnumItem { name: "b".into(), num: None }], ext: None }),
+            ("prelude-like-name:INTEGER", Type::int(0, 255)),
+        ] {
+            let gi = groups.len();
+            let mut m = Module::new(&module_name(gi, 0));
+            m.push_def(def(name, ty));
+            m.push_def(def("User", Type::Sequence(Comps { root: vec![man("inner", Type::Ref(name.to_string())), Comp { name: "maybe".into(), tag: None, ty: Type::Ref(name.to_string()), presence: Presence::Optional }], ext: None })));
+            groups.push(note_group("c09pre", m, what, name));
+        }
+    }
+    // component names that meet generated method names / locals
+    for name in ["value", "values", "new", "default", "clone", "min", "max", "value-min", "value-max", "index", "variant", "variants", "reader", "writer", "read", "write", "len", "is-empty", "eq", "fmt", "into", "from", "u8", "i64", "bool", "str", "string", "vec", "option", "some", "none", "ok", "err", "result", "x0", "a", "e"] {
+        let gi = groups.len();
+        let mut m = Module::new(&module_name(gi, 0));
+        m.push_def(def(
+            "Holder",
+            Type::Sequence(Comps {
+                root: vec![
+                    man(name, Type::int(0, 255)),
+                    Comp { name: format!("{}-opt", name), tag: None, ty: Type::int(-5, 5), presence: Presence::Optional },
+                    Comp { name: format!("{}-def", name), tag: None, ty: Type::int(0, 255), presence: Presence::Default(DefaultVal::Lit(Lit::Int(7))) },
+                ],
+                ext: None,
+            }),
+        ));
+        m.push_def(def("Pick", Type::Choice { root: vec![Alt { name: name.to_string(), tag: None, ty: Type::int(0, 255) }, Alt { name: "other".into(), tag: None, ty: Type::Boolean }], ext: None }));
+        m.push_def(def("Kind", Type::Enumerated { root: vec![EnumItem { name: name.to_string(), num: None }, EnumItem { name: "other".into(), num: None }], ext: None }));
+        m.push_def(def("Wrap", Type::Integer { c: Some(IntC { lo: Bound::Lit(0), hi: Bound::Lit(255), ext: false }), named: vec![(name.to_string(), 1)] }));
+        groups.push(note_group("c09col", m, "method-like-names", name));
+    }
+}
+
+/// value references and DEFAULTs of every kind, with awkward literals
+pub fn c09_consts(groups: &mut Vec<Group>) {
+    let man = |name: &str, ty: Type| Comp { name: name.into(), tag: None, ty, presence: Presence::Mandatory };
+    let dflt = |name: &str, ty: Type, l: Lit| Comp { name: name.into(), tag: None, ty, presence: Presence::Default(DefaultVal::Lit(l)) };
+    let dref = |name: &str, ty: Type, r: &str| Comp { name: name.into(), tag: None, ty, presence: Presence::Default(DefaultVal::Ref(r.to_string())) };
+    let utf8 = || Type::CharString { cs: Charset::Utf8, size: Size::None };
+    let strings = ["", "plain", "he said \"hi\"", "back\\slash", "brace{}s", "tab\tin", "uni\u{e9}\u{20ac}", "percent %d {0}", "r#\"raw\"#", "line1\nline2", "'single'", "trailing\\"];
+    let ints: &[i128] = &[0, 1, -1, 255, 256, -128, -129, 65535, 65536, 2147483647, 2147483648, -2147483648, -2147483649, 4294967295, 4294967296, i64::MAX as i128, i64::MIN as i128];
+    // one group per literal kind and use, so that one failure does not hide another
+    for (k, v) in ints.iter().enumerate() {
+        // value reference of INTEGER type, used as bound where it fits
+        let gi = groups.len();
+        let mut m = Module::new(&module_name(gi, 0));
+        m.push_value(ValueDef { name: format!("num{}", k), ty: Type::int_unconstrained(), lit: Lit::Int(*v) });
+        groups.push(note_group("c09const", m, "integer-value-reference", &format!("{}", v)));
+        // constrained so that the value fits the constraint
+        let gi = groups.len();
+        let mut m = Module::new(&module_name(gi, 0));
+        let (lo, hi) = ((*v).min(0) - 1, (*v).max(0) + 1);
+        if lo >= i64::MIN as i128 && hi <= i64::MAX as i128 {
+            m.push_value(ValueDef { name: format!("num{}", k), ty: Type::int(lo, hi), lit: Lit::Int(*v) });
+            m.push_def(def("Holder", Type::Sequence(Comps { root: vec![dflt("a", Type::int(lo, hi), Lit::Int(*v)), dref("b", Type::int(lo, hi), &format!("num{}", k)), man("c", Type::Boolean)], ext: None })));
+            groups.push(note_group("c09const", m, "integer-default-literal-and-reference", &format!("{}", v)));
+        }
+        // unconstrained INTEGER DEFAULT
+        let gi = groups.len();
+        let mut m = Module::new(&module_name(gi, 0));
+        m.push_def(def("Holder", Type::Sequence(Comps { root: vec![dflt("a", Type::int_unconstrained(), Lit::Int(*v))], ext: None })));
+        groups.push(note_group("c09const", m, "unconstrained-integer-default", &format!("{}", v)));
+    }
+    for (k, s) in strings.iter().enumerate() {
+        for (csname, cs) in [("UTF8String", Charset::Utf8), ("IA5String", Charset::Ia5), ("PrintableString", Charset::Printable), ("VisibleString", Charset::Visible)] {
+            if !s.chars().all(|c| cs.alphabet().contains(&c)) {
+                continue;
+            }
+            let ty = Type::CharString { cs, size: Size::None };
+            let gi = groups.len();
+            let mut m = Module::new(&module_name(gi, 0));
+            m.push_value(ValueDef { name: format!("text{}", k), ty: ty.clone(), lit: Lit::Str(s.to_string()) });
+            groups.push(note_group("c09const", m, &format!("string-value-reference:{}", csname), s));
+            let gi = groups.len();
+            let mut m = Module::new(&module_name(gi, 0));
+            m.push_value(ValueDef { name: format!("text{}", k), ty: ty.clone(), lit: Lit::Str(s.to_string()) });
+            m.push_def(def("Holder", Type::Sequence(Comps { root: vec![dflt("a", ty.clone(), Lit::Str(s.to_string())), dref("b", ty.clone(), &format!("text{}", k))], ext: None })));
+            groups.push(note_group("c09const", m, &format!("string-default-literal-and-reference:{}", csname), s));
+        }
+    }
+    for (what, l) in [("TRUE", Lit::Bool(true)), ("FALSE", Lit::Bool(false))] {
+        let gi = groups.len();
+        let mut m = Module::new(&module_name(gi, 0));
+        m.push_value(ValueDef { name: "flag".into(), ty: Type::Boolean, lit: l.clone() });
+        m.push_def(def("Holder", Type::Sequence(Comps { root: vec![dflt("a", Type::Boolean, l.clone()), dref("b", Type::Boolean, "flag")], ext: None })));
+        groups.push(note_group("c09const", m, "boolean-default-literal-and-reference", what));
+    }
+    for (what, l) in [("hstring", Lit::Hex(vec![0xDE, 0xAD, 0xBE, 0xEF])), ("empty-hstring", Lit::Hex(vec![])), ("bstring", Lit::Bin(vec![true, false, true, false, true, true, false, false])), ("long-hstring", Lit::Hex((0..40).collect()))] {
+        let gi = groups.len();
+        let mut m = Module::new(&module_name(gi, 0));
+        m.push_value(ValueDef { name: "blob".into(), ty: Type::OctetString { size: Size::None }, lit: l.clone() });
+        groups.push(note_group("c09const", m, "octet-string-value-reference", what));
+        let gi = groups.len();
+        let mut m = Module::new(&module_name(gi, 0));
+        m.push_value(ValueDef { name: "blob".into(), ty: Type::OctetString { size: Size::None }, lit: l.clone() });
+        m.push_def(def("Holder", Type::Sequence(Comps { root: vec![dflt("a", Type::OctetString { size: Size::None }, l.clone()), dref("b", Type::OctetString { size: Size::None }, "blob")], ext: None })));
+        groups.push(note_group("c09const", m, "octet-string-default-literal-and-reference", what));
+        let gi = groups.len();
+        let mut m = Module::new(&module_name(gi, 0));
+        m.push_def(def("Holder", Type::Sequence(Comps { root: vec![dflt("a", Type::BitString { size: Size::None, named: vec![] }, l.clone())], ext: None })));
+        groups.push(note_group("c09const", m, "bit-string-default-literal", what));
+    }
+    {
+        // ENUMERATED defaults: inline and referenced, first / last item, item named like a keyword
+        let items = |names: &[&str]| Type::Enumerated { root: names.iter().map(|n| EnumItem { name: n.to_string(), num: None }).collect(), ext: None };
+        for (what, names, pick) in [("first-item", vec!["red", "green"], "red"), ("last-item", vec!["red", "green", "dark-blue"], "dark-blue"), ("keyword-item", vec!["type", "match"], "match")] {
+            // through a reference to the ENUMERATED
+            let gi = groups.len();
+            let mut m = Module::new(&module_name(gi, 0));
+            m.push_def(def("Colour", items(&names)));
+            m.push_def(def("Holder", Type::Sequence(Comps { root: vec![dflt("a", Type::Ref("Colour".into()), Lit::EnumItem(pick.to_string())), man("z", Type::Boolean)], ext: None })));
+            groups.push(note_group("c09const", m, "enumerated-default:referenced", what));
+            // inline ENUMERATED
+            let gi = groups.len();
+            let mut m = Module::new(&module_name(gi, 0));
+            m.push_def(def("Holder", Type::Sequence(Comps { root: vec![dflt("b", items(&names), Lit::EnumItem(pick.to_string()))], ext: None })));
+            groups.push(note_group("c09const", m, "enumerated-default:inline", what));
+            // a value reference of another type carries the name of the item
+            let gi = groups.len();
+            let mut m = Module::new(&module_name(gi, 0));
+            m.push_value(ValueDef { name: pick.to_string(), ty: Type::int(0, 100), lit: Lit::Int(50) });
+            m.push_def(def("Colour", items(&names)));
+            m.push_def(def("Holder", Type::Sequence(Comps { root: vec![dflt("a", Type::Ref("Colour".into()), Lit::EnumItem(pick.to_string())), dflt("n", Type::int(0, 100), Lit::Int(50))], ext: None })));
+            groups.push(note_group("c09const", m, "enumerated-default:item-shares-its-name-with-a-value-reference", what));
+        }
+    }
+    {
+        // defaults behind references and in nested / extension positions
+        let gi = groups.len();
+        let mut m = Module::new(&module_name(gi, 0));
+        m.push_def(def("Small", Type::int(0, 7)));
+        m.push_def(def("Text", utf8()));
+        m.push_def(def(
+            "Holder",
+            Type::Sequence(Comps {
+                root: vec![dflt("a", Type::Ref("Small".into()), Lit::Int(3)), dflt("t", Type::Ref("Text".into()), Lit::Str("x".into())), man("inner", Type::Sequence(Comps { root: vec![dflt("deep", Type::int(-5, 5), Lit::Int(-5))], ext: None }))],
+                ext: Some(vec![dflt("later", Type::int(0, 65535), Lit::Int(65535))]),
+            }),
+        ));
+        groups.push(note_group("c09const", m, "defaults-behind-references-and-nested", ""));
+    }
+}
+
+/// random modules from the full front-end grammar with the hostile identifier pool
+pub fn c09_random(groups: &mut Vec<Group>, rng: &mut Rng, tier: &str) {
+    let n = if tier == "quick" { 120 } else { 1500 };
+    for k in 0..n {
+        let gi = groups.len();
+        // the preconditions of the recorded findings (names that meet after mangling, `self`, BIT STRING constants,
+        // negative literals for unconstrained INTEGER) are pinned by the systematic families and kept out of the random
+        // modules, so that every rustc error in a random module is a new observation
+        let mut cfg = GenCfg::front();
+        cfg.hostile_idents = k % 2 == 0;
+        cfg.hostile_collisions = false;
+        cfg.unrepresentable_ints = false;
+        cfg.oids = k % 3 == 0;
+        let mut g = Gen::new(rng, cfg);
+        let nd = g.rng.range(1, 4) as usize;
+        let mut m = g.gen_module(&module_name(gi, 0), nd);
+        sanitize(&mut m);
+        let mut grp = Group::new("c09rand", vec![m]);
+        grp.inline_macro = k % 4 == 1;
+        groups.push(grp);
+    }
+}
